@@ -1,6 +1,8 @@
 package gosym
 
 import (
+	"go/types"
+
 	"golang.org/x/tools/go/ssa"
 )
 
@@ -139,6 +141,38 @@ func registerTimeNatives(in *Interp) {
 		return nil
 	}
 	n["time.Sleep"] = nop
+	// Timers and deadlines never fire in the model (time does not pass while the
+	// code under test runs): a Timer is a struct whose channel stays empty,
+	// WithTimeout / WithDeadline are WithCancel.
+	n["time.NewTimer"] = func(in *Interp, fn *ssa.Function, args []Value) Value {
+		pt := fn.Signature.Results().At(0).Type().(*types.Pointer)
+		tv := in.zero(pt.Elem())
+		st := pt.Elem().Underlying().(*types.Struct)
+		for i := 0; i < st.NumFields(); i++ {
+			if st.Field(i).Name() == "C" {
+				tv.(*StructV).F[i] = ChanV{Obj: in.newObj(&chanData{}, st.Field(i).Type(), "chan")}
+			}
+		}
+		in.noteAssumption("timers never fire (time.NewTimer channel stays empty)")
+		return Ptr{Obj: in.newObj(tv, pt.Elem(), "timer")}
+	}
+	n["(*time.Timer).Stop"] = func(in *Interp, fn *ssa.Function, args []Value) Value { return in.tb.True }
+	n["(*time.Timer).Reset"] = func(in *Interp, fn *ssa.Function, args []Value) Value { return in.tb.True }
+	withCancel := func(in *Interp, fn *ssa.Function, args []Value) Value {
+		for _, p := range in.prog.AllPackages() {
+			if p.Pkg.Path() == "context" {
+				in.noteAssumption("context deadlines never expire (WithTimeout/WithDeadline behave as WithCancel)")
+				return in.call(p.Func("WithCancel"), args[:1])
+			}
+		}
+		panic("context package not loaded")
+	}
+	n["context.WithTimeout"] = withCancel
+	n["context.WithDeadline"] = withCancel
+	n["math/rand.Shuffle"] = func(in *Interp, fn *ssa.Function, args []Value) Value {
+		in.noteAssumption("rand.Shuffle leaves the order unchanged (one of the possible permutations)")
+		return nil
+	}
 	n["os.Getpid"] = func(in *Interp, fn *ssa.Function, args []Value) Value {
 		if in.pid == nil {
 			in.pid = in.fresh("pid", BV(64))
